@@ -8,9 +8,9 @@ use std::str::FromStr;
 
 pub fn lanes() -> Vec<Lane> {
     vec![
-        Lane { name: "roundtrip", count: |c| if c.thorough() { 2_000_000 } else { 80_000 }, run: roundtrip_lane },
+        Lane { name: "roundtrip", count: |c| if c.thorough() { 2_000_000 } else { 300_000 }, run: roundtrip_lane },
         Lane { name: "catalog", count: |_| (CAT_FIELDS * (1 + CAT_FIELDS)) * (1 + CAT_FIELDS * (1 + CAT_FIELDS)), run: catalog_lane },
-        Lane { name: "edits", count: |c| if c.thorough() { 500_000 } else { 30_000 }, run: edits_lane },
+        Lane { name: "edits", count: |c| if c.thorough() { 1_000_000 } else { 150_000 }, run: edits_lane },
     ]
 }
 
